@@ -13,6 +13,7 @@ import (
 	"net"
 	"strconv"
 	"strings"
+	"sync"
 	"sync/atomic"
 	"time"
 
@@ -33,6 +34,8 @@ func init() {
 		}
 	}
 	r9Wrap("C19", r9Panics)
+	r9Wrap("C19", c19K)
+	replayers["C19K"] = func(c *ctx, in []string) { c19Reexec(); c19K(c) }
 	r9Wrap("C04", r9BigRX)
 	r9Wrap("C08", r9C08)
 	r9Wrap("C06", r9C06)
@@ -461,4 +464,49 @@ func r9BigRX(c *ctx) {
 			runRX(c, "RX", side, "data", []sframe{a, b, next}, "-", "r4096", "eof")
 		}
 	}
+}
+
+// r9-C19: control frames WITH payloads of every size class (pings, pongs, closes) handled concurrently by sessions of both
+// roles (race build): package-level scratch state behind a handler shows up as a race, and every reply is still the right one.
+//
+//	C19K <race build> -> <wrong replies> <race reports>
+func c19K(c *ctx) {
+	races0 := c19Races()
+	var wrong int32
+	var wg sync.WaitGroup
+	for g := 0; g < 8; g++ {
+		wg.Add(1)
+		go func(g int) {
+			defer wg.Done()
+			st := []ws.State{ws.StateClientSide, ws.StateServerSide}[g%2]
+			for k := 0; k < 6; k++ {
+				for _, n := range []int{1, 30, 62, 63, 100, 125} {
+					p := bytes.Repeat([]byte{byte('a' + g)}, n)
+					// pong: nothing is written
+					d := newRecWriter()
+					wsutil.ControlHandler{Src: bytes.NewReader(p), Dst: d, State: st, DisableSrcCiphering: true}.Handle(ws.Header{Fin: true, OpCode: ws.OpPong, Length: int64(n)})
+					if len(d.all()) != 0 {
+						atomic.AddInt32(&wrong, 1)
+					}
+					// ping: the pong carries this session's bytes
+					d = newRecWriter()
+					wsutil.ControlHandler{Src: bytes.NewReader(p), Dst: d, State: st, DisableSrcCiphering: true}.Handle(ws.Header{Fin: true, OpCode: ws.OpPing, Length: int64(n)})
+					if f, err := ws.ReadFrame(bytes.NewReader(d.all())); err != nil || f.Header.OpCode != ws.OpPong {
+						atomic.AddInt32(&wrong, 1)
+					} else {
+						if f.Header.Masked {
+							ws.Cipher(f.Payload, f.Header.Mask, 0)
+						}
+						if !bytes.Equal(f.Payload, p) {
+							atomic.AddInt32(&wrong, 1)
+						}
+					}
+					// a message written by a client-side session at the same time (random masks)
+					wsutil.WriteClientMessage(ioutil.Discard, ws.OpBinary, p)
+				}
+			}
+		}(g)
+	}
+	wg.Wait()
+	c.emit("C19K %s -> %d %d", b2s(raceEnabled), wrong, c19Races()-races0)
 }
